@@ -186,6 +186,9 @@ func oneFactorLayouts() []gen.Layout {
 	mod(func(l *gen.Layout) { l.EmptyDash = true; l.Multi = true })
 	mod(func(l *gen.Layout) { l.BlockInAnn = true })
 	mod(func(l *gen.Layout) { l.BlockInAnn = true; l.NL = "\r\n" })
+	mod(func(l *gen.Layout) { l.NoteBelow = true })
+	mod(func(l *gen.Layout) { l.NoteBelow = true; l.Multi = true; l.NL = "\r\n" })
+	mod(func(l *gen.Layout) { l.NoteBelow = true; l.NL = "\r"; l.GapTab = true })
 	mod(func(l *gen.Layout) { l.EmptyPad = true; l.Multi = true })
 	mod(func(l *gen.Layout) { l.QuoteNames = true; l.Pad = 2 })
 	mod(func(l *gen.Layout) { l.Multi = true; l.DashStyle = 2 })
